@@ -91,7 +91,9 @@ Why(e) ==
   \cup (IF Determined(e, cfg.token) /\ TheRole(e, cfg.token) = Viewer /\ Changed(e) THEN {"viewer-changed-state"} ELSE {})
   \cup (IF Determined(e, cfg.token) /\ e.cls = "forbidden" /\ e.decl >= 0 /\ TheRole(e, cfg.token) >= e.decl
         THEN {"refused-below-declared-role"} ELSE {})
-\* the single refusal the specification expected, for the report ("" if several outcomes were open)
+  \cup (IF ~OnlyRefusals(e) /\ e.cls \in GateWords /\ Performed(e) THEN {"refusal-with-effect"} ELSE {})
+WhyOr(e) == IF Why(e) = {} THEN {"unexplained"} ELSE Why(e)
+\* the single outcome the specification allowed, for the report ("open" if several were)
 Gist(e) == IF Cardinality(Expected(e)) = 1 THEN CHOOSE o \in Expected(e) : TRUE ELSE "open"
 
 Mark(why, c, exp) == bad' = Append(bad, [run |-> run, line |-> l, why |-> why, kind |-> K, t |-> TypeOf(K), c |-> c, exp |-> exp,
@@ -120,7 +122,7 @@ Req ==
      THEN /\ bad' = bad /\ skip' = FALSE
           /\ out' = [k |-> K, cred |-> E.cred, wf |-> E.wf, role |-> NoRole, outcome |-> E.cls, changed |-> Changed(E), data |-> E.hasData]
           /\ eff' = (IF Changed(E) THEN eff \cup {<<K, E.c>>} ELSE eff)
-     ELSE /\ Mark(Why(E), E.c, Gist(E)) /\ skip' = TRUE /\ UNCHANGED <<eff, out>>
+     ELSE /\ Mark(WhyOr(E), E.c, Gist(E)) /\ skip' = TRUE /\ UNCHANGED <<eff, out>>
 
 Next == More /\ (Reset \/ Skip \/ Req)
 Spec == Init /\ [][Next]_tvars
